@@ -44,7 +44,7 @@ def cases(shard, tier):
     chunks = sorted({None, 1, 2, R_}, key=lambda x: (x is not None, x))
     maps = ['identity', 'renamed'] + (['swapped'] if shard['frame'] == 'D' else [])
     for (f, t), chunk, mapping, perm, extra, bo in itertools.product(wins, chunks, maps,
-                                                                     ['same', 'reversed'], [False, True], ['<', '>']):
+                                                                     ['same', 'reversed'], [False, True, 'trailing'], ['<', '>']):
         if shard['src'] == 'inline' and (mapping != 'identity' or perm != 'same' or extra):
             continue
         yield dict(shard, frm=f, to=t, chunk=chunk, mapping=mapping, perm=perm, extra=extra, bo=bo)
@@ -116,7 +116,7 @@ def make_spec(c, reference=False):
         data = data[::-1]
     if c['extra']:
         ex = ('UNUSED', S.arr_spec('float32', [rows], [0x3F800000] * rows))
-        data = [ex] + data + [('ZZ-UNUSED', S.arr_spec('uint8', [rows, 2], [7] * (2 * rows)))]
+        data = ([ex] if c['extra'] is True else []) + data + [('ZZ-UNUSED', S.arr_spec('uint8', [rows, 2], [7] * (2 * rows)))]
     if c['src'] == 'dict':
         sp['write']['data'] = {'$datadict': dict(data)}
     elif c['src'] == 'struct':
